@@ -48,6 +48,7 @@ impl<'a> BaseParser for SassParser<'a> {
                     return Err(("expected */.", self.toks.prev_span()).into())
                 }
                 Some(Token { kind: '*', .. }) => {}
+                None => return Err(("expected more input.", self.toks.current_span()).into()),
                 _ => continue,
             }
 
